@@ -97,6 +97,20 @@ ColumnAgrees(obj, f, cells, outs) ==
       /\ \A i, j \in DOMAIN cells :
             (IsStrLabel(exp[i]) /\ ~IsStrLabel(exp[j])) => outs[i] # outs[j]
 
+(* the text of an interval label names the bounds of the group the row lands in: observed labels of *)
+(* quantitative features are <<3, id, lo, hi>> with lo / hi the codes of the boundaries that print    *)
+(* like the two sides of the text (0-INF / INF for an open side, -2 no such boundary, -3 ambiguous)   *)
+PrevBound(vo, leader) ==
+  LET idx  == GLIndexOf(vo.order, leader)
+      prev == {i \in 1..(idx - 1) : vo.order[i] # NAN}
+  IN  IF prev = {} THEN 0 - INF ELSE vo.order[CHOOSE i \in prev : \A j \in prev : j <= i]
+IntervalTextOK(obj, f, cells, outs) ==
+  LET ft == obj.feats[f] IN
+  \A i \in DOMAIN cells :
+     LET w == Lands(ft, cells[i]) IN
+     (i \in DOMAIN outs /\ w.t = "grp" /\ ft.kind = "quanti" /\ Len(outs[i]) = 4 /\ IsStrLabel(OutOf(obj.dtype, ft, w.g)))
+        => (outs[i][3] = PrevBound(ft.vo, w.g) /\ outs[i][4] = w.g)
+
 (* ---- well-formedness of an object (C08) ---- *)
 FeatWellFormed(ft) == GLWellFormed(ft.vo)
 
